@@ -624,9 +624,10 @@ class Opaque:      # a value the plan does not depend on (decoded results, arith
     pass
 
 
-class Arr:         # a byte buffer of known (Lean term) length
-    def __init__(self, n):
+class Arr:         # a byte buffer of known (Lean term) length; `empty`: True / False if known
+    def __init__(self, n, empty=None):
         self.n = n
+        self.empty = empty
 
 
 class Num:         # a length (Lean term of type Nat)
@@ -1431,6 +1432,10 @@ class Interp:
                 raise Unsupported('effect in a boolean operand')
             return Bool(b_and(a.e, b.e) if op == '&&' else b_or(a.e, b.e))
         b = self.eval(e[3], env)
+        if op in ('==', '!=', '>', '<', '>=', '<=') and isinstance(a, Num) and isinstance(b, U8) and b.e == '0x00#8' \
+                and getattr(a, 'empty', None) is not None:
+            truth = {'==': a.empty, '!=': not a.empty, '>': not a.empty, '<': False, '>=': True, '<=': a.empty}[op]
+            return Bool('true' if truth else 'false')
         if op in ('==', '!='):
             if isinstance(a, U8) and isinstance(b, U8):
                 if a.e == b.e:
@@ -1546,8 +1551,12 @@ class Interp:
         if isinstance(recv, Var):
             return self.run_fn(recv.ty, name, recv, args)
         if isinstance(recv, Arr) and name == 'len' and not args:
-            return Num(recv.n)
+            r = Num(recv.n)
+            r.empty = recv.empty
+            return r
         if isinstance(recv, Arr) and name == 'is_empty' and not args:
+            if recv.empty is not None:
+                return Bool('true' if recv.empty else 'false')
             return Bool('(%s == 0)' % recv.n)
         if isinstance(recv, Num) and name in ('min', 'max') and len(args) == 1:
             a = args[0]
@@ -1916,7 +1925,7 @@ def parse_trait_impls(srcdir, fname, items):
         items['impl'].setdefault(target, {}).update(sub['fn'])
 
 
-def run_transport(items, regaddr, maps, owner, fname, vec):
+def run_transport(items, regaddr, maps, owner, fname, vec, empty=False):
     it = Interp(items, regaddr, maps)
     it.api = True
     it.hal = vec
@@ -1931,7 +1940,7 @@ def run_transport(items, regaddr, maps, owner, fname, vec):
     body = P(toks).block()
     env = {}
     for p_ in params:
-        env[p_] = selfv if p_ == 'self' else RegParam() if p_ == 'register' else Arr('n') if p_ == 'buffer' else Opaque()
+        env[p_] = selfv if p_ == 'self' else RegParam() if p_ == 'register' else (Arr('0', True) if empty else Arr('n', False)) if p_ == 'buffer' else Opaque()
     try:
         r = it.exec_block(body, env, top=False)
         if isinstance(r, tuple) and r and r[0] == 'ret':
@@ -1960,15 +1969,23 @@ def main_transport(srcdir, leandir):
     regaddr, regdefault, readregs = load_regtable(srcdir)
     maps = {'flagenc': {}, 'flagdec': {}, 'enumdec': {}, 'enumenc': {}, 'enums': {}}
     defs = []
+    variants = []
     for lname, f, owner, fname in TRANSPORT:
-        ops0, _ = run_transport(copy.deepcopy(items), regaddr, maps, owner, fname, [])
+        variants.append((lname, f, owner, fname, False))
+        if fname == 'read_register':
+            # the same function for an EMPTY buffer (`buffer.is_empty()`, `buffer.len() == 0` are then true)
+            variants.append((lname + '_empty', f, owner, fname, True))
+    for lname, f, owner, fname, empty in variants:
+        ops0, _ = run_transport(copy.deepcopy(items), regaddr, maps, owner, fname, [], empty)
         n = len(ops0)
         if n == 0 or n > 6:
             raise Unsupported('%s::%s performs %d HAL operations' % (owner, fname, n))
+        if empty:
+            n = max(n, {'I2CInterface': 1, 'SPIInterface': 4}[owner])   # at least the schedule bits of the theorem
         rows = []
         for bits in range(2 ** n):
             vec = [bool((bits >> i) & 1) for i in range(n)]
-            ops, res = run_transport(copy.deepcopy(items), regaddr, maps, owner, fname, vec)
+            ops, res = run_transport(copy.deepcopy(items), regaddr, maps, owner, fname, vec, empty)
             rows.append('    ([%s], [%s], %s)' % (', '.join('true' if b else 'false' for b in vec), ', '.join(ops), res))
         defs.append('/-- %s::%s of src/%s: for every pattern of failing HAL operations (operation k fails iff the k-th\n'
                     '    entry is true), the operations attempted in order and the result (none = Ok, some (pin?, k) = the error\n'
